@@ -68,7 +68,7 @@ def r1_solve_loop(R) -> None:
             in_comp = any(isinstance(c_, (ast.ListComp, ast.GeneratorExp, ast.DictComp, ast.SetComp)) and any(y is call for y in ast.walk(c_)) for c_ in ast.walk(n.ast))
             if in_comp:
                 raise Unknown(f'{q}: self.solve_t() is called from a comprehension (`{n.label()[:50]}`): the order and pairing of periods and flags is not read there')
-            R.violation(q, 'solve_t-not-in-loop', 'self.solve_t() is not called inside the period loop', where=f.where(n))
+            R.violation(q, 'solve_t-not-in-loop', 'self.solve_t() is not called inside the period loop', where=f.where(n), mismatch=True)
             continue
         loop = lp[-1]
         R.check(len(lp) == 1, q, 'solve_t-once-per-period', 'one solve_t per period', 'solve_t is nested in an inner loop', where=f.where(n))
